@@ -1801,3 +1801,35 @@ Qed.
 
 Lemma adapter_stream ins : concat (snd (adapter_run [] (ins ++ [ATurn]))) = concat (received ins).
 Proof. now rewrite adapter_order. Qed.
+
+(* ---------------------------------------------------------------------------------------------------------- *)
+(* 13. decodable but not a WAMP message: a protocol violation on every transport                                 *)
+(* ---------------------------------------------------------------------------------------------------------- *)
+Lemma envelope_ok_inv r : envelope_ok r = true ->
+  exists z, r = RMsg (TInt z) true /\ (0 <= z)%Z /\ In (Z.to_N z) gen_wamp_type_codes.
+Proof.
+  destruct r as [| |t ok]; try discriminate. destruct t; try discriminate. cbn [envelope_ok]. intros H.
+  apply andb_true_iff in H. destruct H as [H Hok]. apply andb_true_iff in H. destruct H as [Hz Hm].
+  exists z. subst ok. split; [reflexivity|]. split; [now apply Z.leb_le|now apply memN_In].
+Qed.
+
+Lemma violation_closes r id re :
+  envelope_ok r = false ->
+  (forall bin att, ws_on_message bin att bin (classify r id re) = [WBailout gen_close_protocol_error]) /\
+  (forall i, string_received i (classify r id re) = [Abort]).
+Proof.
+  intros H. unfold classify. rewrite H. split; [intros bin att; apply ws_undecodable|reflexivity].
+Qed.
+
+Lemma non_integer_codes_rejected :
+  (forall b ok, envelope_ok (RMsg (TBool b) ok) = false) /\ (forall ok, envelope_ok (RMsg TFloat ok) = false) /\
+  (forall ok, envelope_ok (RMsg TStr ok) = false) /\ (forall ok, envelope_ok (RMsg TNull ok) = false) /\
+  (forall ok, envelope_ok (RMsg TBytes ok) = false) /\ (forall ok, envelope_ok (RMsg TList ok) = false) /\
+  (forall ok, envelope_ok (RMsg TDict ok) = false) /\ envelope_ok RNotList = false /\ envelope_ok REmptyList = false /\
+  (forall z ok, (z < 0)%Z -> envelope_ok (RMsg (TInt z) ok) = false) /\
+  (forall z ok, ~ In (Z.to_N z) gen_wamp_type_codes -> envelope_ok (RMsg (TInt z) ok) = false).
+Proof.
+  repeat split; try reflexivity.
+  - intros z ok H. cbn [envelope_ok]. destruct (Z.leb_spec 0 z); [lia|reflexivity].
+  - intros z ok H. cbn [envelope_ok]. apply memN_false in H. rewrite H. now rewrite andb_false_r.
+Qed.
